@@ -484,7 +484,7 @@ class C01(Prop):
         yield {**base, "cals": [[0, {**cal0, "rsq": NAN_Q}]], "excluded": "rsq NaN"}
         yield {**base, "cals": [[0, {**cal0, "unit": "u" * 33}]], "excluded": "unit > 32"}
         yield {**base, "cls": "srr", "shapes": [[1, 1], [1, 1]], "elements": [el("A", ">f8", n=2)], "config": srr,
-               "excluded": "SRR big-endian field"}
+               "expect_known": True}
         # a tab in the file stem becomes the Name and turns into a space one generation later
         yield {**base, "stem": "a\tb", "chain": 2, "excluded": "tab in file stem"}
 
@@ -621,6 +621,8 @@ class C01(Prop):
             imp = out["impl"]
             if isinstance(imp, dict) and imp.get("raises") == "ValueError":
                 return "C01-srr-unequal-layers-unsaveable"
+        if case.get("cls") == "srr" and any(e["dtype"].startswith(">") for e in case["elements"]):
+            return "C01-srr-byteorder"
         nul = any(e["name"].endswith("\x00") for e in case["elements"])
         for _, c in case["cals"]:
             w = c["weights"] if isinstance(c["weights"], str) else c["weights"]["name"]
